@@ -112,6 +112,9 @@ pub fn chain(d: u64) {
 
 /// Set by worker processes of engine R (see dfamily::gen_cfg).
 pub static SMALL_PLANS: std::sync::atomic::AtomicBool = std::sync::atomic::AtomicBool::new(false);
+/// Miri tier of the dispatcher families: tiny plans, a handful of planned runs per scenario, no
+/// rendezvous directives (liveness is not the business of that tier).
+pub static MIRI_PLANS: std::sync::atomic::AtomicBool = std::sync::atomic::AtomicBool::new(false);
 
 /// Deadline of the current worker (ms since the epoch); long scenarios stop between runs.
 pub static DEADLINE_MS: std::sync::atomic::AtomicU64 = std::sync::atomic::AtomicU64::new(u64::MAX);
@@ -468,7 +471,7 @@ fn spawn_worker(exe: &std::path::Path, tx: &mpsc::Sender<Msg>, i: usize, prop: &
     });
 }
 
-fn known_findings() -> Vec<Value> {
+pub fn known_findings() -> Vec<Value> {
     let p = format!("{}/known_findings.json", verif_dir());
     match std::fs::read_to_string(&p) {
         Ok(t) => serde_json::from_str::<Value>(&t).ok().and_then(|v| v.get("findings").cloned()).and_then(|v| v.as_array().cloned()).unwrap_or_default(),
@@ -478,7 +481,7 @@ fn known_findings() -> Vec<Value> {
 
 /// A violation is a listed known finding iff property and class match and the message contains
 /// the finding's `match` string.
-fn match_known(kfs: &[Value], prop: &str, class: &str, msg: &str) -> Option<String> {
+pub fn match_known(kfs: &[Value], prop: &str, class: &str, msg: &str) -> Option<String> {
     for k in kfs {
         if k.get("status").and_then(|s| s.as_str()) == Some("fixed") {
             continue; // fixed entries suppress nothing
